@@ -55,6 +55,9 @@ def gen_case(seed, cfg, index=0):
             fpos = sorted(r.sample(range(nt), r.randint(1, nt)))
             op = {"base": b, "fpos": fpos, "sigs": [r.choice(SIG_CLASSES) for _ in fpos], "kind": "exec", "salt": 0, "fault": None, "give_sizes": r.random() < 0.75}
         k = r.random()
+        if k < 0.03:
+            ops.append({"kind": "zero-update", "upd": r.choice(["set_at", "add_at", "subtract_at"]), "sig": r.choice(["plain", "name", "varkw", "object"]), "size": r.choice([2, 3, 4]), "base": 0, "fpos": [0], "sigs": ["plain"], "salt": 0, "fault": None})
+            continue
         if k < 0.15:
             op["kind"] = "graph"
         elif k < 0.25:
@@ -217,6 +220,7 @@ def exec_case(case, cfg):
     sigs = set()
     log_all = []
     bad = []
+    known = []
     plain_ok = {}
     axis_sizes = {}
     seen_keys = set()
@@ -224,6 +228,28 @@ def exec_case(case, cfg):
     cs = case.get("env", {}).get("cache_size", cfg.get("env", {}).get("cache_size", -1))
     for opi, op in enumerate(case["ops"]):
         stats["ops"] += 1
+        if op["kind"] == "zero-update":
+            # an indexed update with zero-sized coordinates / updates: nothing is updated, the result is the target tensor - which the factory must produce
+            n = op["size"]
+            target = np.arange(1.0, n + 1)
+            log = Log()
+            f, _decl = make_factory(op["sig"], target, 0, log, None)
+            desc = f"[a{tag}], i{tag} [1], i{tag} -> [a{tag}]"
+            try:
+                result = getattr(einx, op["upd"])(desc, f, np.zeros((0, 1), dtype=np.int64), np.zeros((0,)), backend="numpy", **{"a" + tag: n})
+                exc = None
+            except Exception as e:
+                result, exc = None, e
+            stats["zero_size_updates"] = stats.get("zero_size_updates", 0) + 1
+            log_all.append([opi, "zero-update", op["upd"], desc, [0], [c["pos"] for c in log.calls], type(exc).__name__ if exc else "ok"])
+            where = f"op {opi} (zero-update): einx.{op['upd']}({desc!r}, <factory {op['sig']}>, zeros((0, 1)), zeros((0,)), a={n})"
+            if exc is None and result is f and not log.calls:
+                known.append(("factory-returned-uncalled", f"{where}: returned the factory object itself without invoking it", "update-at-zero-size-returns-factory"))
+            elif exc is None and not (isinstance(result, np.ndarray) and len(log.calls) == 1 and tuple(log.calls[0]["args"][0]) == (n,) and np.array_equal(result, target)):
+                bad.append(("zero-update", f"{where}: returned {type(result).__name__} after {len(log.calls)} factory invocation(s); expected the factory's array after exactly one invocation with shape ({n},)"))
+            elif exc is not None and log.calls and type(exc).__name__ != "CallOperationError":
+                bad.append(("invoked-on-rejection", f"{where}: rejected with {type(exc).__name__} but the factory was invoked"))
+            continue
         d = workload.rename_axes(json.loads(json.dumps(case["bases"][op["base"]])), tag)  # run-unique axis names
         b = op["base"]
         if b not in plain_ok:
@@ -412,6 +438,8 @@ def exec_case(case, cfg):
            "log_sha": hashlib.sha256(json.dumps(log_all, sort_keys=True, default=str).encode()).hexdigest()}
     if bad:
         res.update(verdict="violation", klass=bad[0][0], detail=bad[0][1])
+    elif known:
+        res.update(verdict="known", klass=known[0][0], detail=known[0][1], known_sig=known[0][2])
     else:
         res["verdict"] = "ok"
     return res
@@ -420,7 +448,7 @@ def exec_case(case, cfg):
 def shrink_case(case, klass, cfg):
     def fails(c):
         r = exec_case(c, cfg)
-        return r["verdict"] == "violation" and r.get("klass") == klass
+        return r["verdict"] == cfg.get("want_verdict", "violation") and r.get("klass") == klass
 
     if not fails(case):
         return case
